@@ -240,6 +240,8 @@ def families(opts):
         for t in TRANSFORMS:
             if len(set(place)) == 1 and (t.get('perm_comp') and len(t) == 1 or t.get('rename') in (2, 3, 4) or t.get('init_on_twin')):
                 continue  # no second component / no twins: the transformation is the identity
+            if r.opts.get('onlypad') == '1' and t and not t.get('pad'):
+                continue  # (maintenance option: identity and padding only)
             if t.get('pad') and not (r.opts.get('pad') == '1' or 'G' in kinds or 'C' in kinds):
                 continue  # padding: everywhere in the quick tier; in the thorough tier on the graphs with guessed unknowns / coupled systems
             L = D.Layout(kinds, reads, place, **t)
